@@ -12,7 +12,7 @@ for d in cmd/*/; do
   n=$(basename "$d")
   case "$n" in
     c01|c12|c16|c17|c19) GOEXPERIMENT=synctest go build -tags verif -o "$S/bin/setup.$n" "./cmd/$n" || echo "warning: $n does not build" ;;
-    c13) go build -race -tags verif -o "$S/bin/setup.$n" "./cmd/$n" || echo "warning: $n does not build" ;;
+    c13|c12race) go build -race -tags verif -o "$S/bin/setup.$n" "./cmd/$n" || echo "warning: $n does not build" ;;
     *) go build -tags verif -o "$S/bin/setup.$n" "./cmd/$n" || echo "warning: $n does not build" ;;
   esac
   rm -f "$S/bin/setup.$n"
